@@ -46,8 +46,8 @@ end in `.0` / `.1`):
   constructors compute their per-edge repetition caps on the expanded graph from whatever `flow_attr` values sit on it
   — ignored edges included — and `NodeExpandedDiGraph` copies every attribute of an original edge `(u, v)` onto
   `(u.1, v.0)`. `w_max` always comes out equal; the caps of `kFlowDecompCycles` come out equal **exactly when** no
-  original edge inside a cycle carries an attribute named like the flow attribute with a value other than `w_max`
-  (`kfdc_caps_equal_iff`); for the two error classes it suffices that such attributes have value `0`. Without the
+  original edge inside a cycle carries an attribute named like the flow attribute with a value whose floor differs
+  from that of `w_max` (`kfdc_caps_equal_iff`; the caps are floored since fix fcfd0b0); for the two error classes it suffices that such attributes have value `0`. Without the
   hypothesis the equality fails: `kfdc_node_mode_cap_from_edge_attribute_differs` (the node LP is infeasible, the LP
   on the explicit expansion feasible), `errc_node_mode_cap_from_edge_attribute_differs`; both inputs are replayed on
   the real classes (finding `C11-cyclic-node-mode-cap-from-edge-attribute`). Independent of the caps:
@@ -451,13 +451,15 @@ theorem node_mode_is_edge_mode_on_expansion_kcoverc (inp : NodeModeInput) (lp : 
 /-- **kFlowDecompCycles** (with or without `given_weights`). `hc`, `hef` hold for every networkx graph (edges join
 nodes; attributes sit on existing edges). `hcap` is needed (`kfdc_caps_equal_iff`,
 `kfdc_node_mode_cap_from_edge_attribute_differs`): the class caps the repetitions of an edge of the expanded graph by
-`data[flow_attr] if flow_attr in data else w_max`, and the copy `(u.1, v.0)` of an original edge carries every
-attribute of `(u, v)` — so an original edge inside a cycle that happens to carry an attribute named like the flow
-attribute must carry `w_max` for the node branch to build the LP of the explicit expansion. -/
+`floor(data[flow_attr] if flow_attr in data else w_max)` (floored since fix fcfd0b0), and the copy `(u.1, v.0)` of an
+original edge carries every attribute of `(u, v)` — so an original edge inside a cycle that happens to carry an attribute
+named like the flow attribute must carry a value with the floor of `w_max` (e.g. `w_max` itself) for the node branch to
+build the LP of the explicit expansion. -/
 theorem node_mode_is_edge_mode_on_expansion_kfdc (inp : NodeModeInput) (given : Option (List Rat)) (lp : LP)
     (hc : Closed inp.nf.ng.g) (hef : ∀ p ∈ inp.nf.ng.edgeFlow, p.1 ∈ inp.nf.ng.g.edges)
     (hcap : ∀ x q, inp.nf.ng.edgeFlow.lookup x = some q →
-      isSccEdge (expandWalkInput inp).st.g (edgeEdge x) = true → q = (expandWalkInput inp).wmax false)
+      isSccEdge (expandWalkInput inp).st.g (edgeEdge x) = true →
+        q.floor = ((expandWalkInput inp).wmax false).floor)
     (h : kfdcNodeLP inp given = .ok lp) : lp = kfdcLP (expandWalkInput inp) given :=
   NX.nxc_kfdc_node_eq inp given lp hc hef hcap h
 
@@ -474,7 +476,8 @@ theorem kfdc_caps_equal_iff (inp : NodeModeInput) (hc : Closed inp.nf.ng.g)
     (nxcTranslated inp inp.nf.ng).wmax false = (expandWalkInput inp).wmax false ∧
     (kfdcBounds (nxcTranslated inp inp.nf.ng) = kfdcBounds (expandWalkInput inp) ↔
       ∀ x q, inp.nf.ng.edgeFlow.lookup x = some q →
-        isSccEdge (expandWalkInput inp).st.g (edgeEdge x) = true → q = (expandWalkInput inp).wmax false) :=
+        isSccEdge (expandWalkInput inp).st.g (edgeEdge x) = true →
+        q.floor = ((expandWalkInput inp).wmax false).floor) :=
   NX.nxc_kfdc_caps_iff inp hc hef
 
 /-- what the node branch hands to the edge-level constructor is `nxcTranslated` (so `kfdc_caps_equal_iff` speaks about
@@ -556,14 +559,14 @@ theorem kfdc_node_mode_cap_from_edge_attribute_differs :
 
 /-- **the hypothesis `hzero` cannot be dropped**: the same graph with node values `1/2, 3/2, 1/2`, float weights and the
 edge attribute `flow = 9` on the self-loop: the node branches of the two error classes cap the expanded edge of `a` at `9`,
-the edge-level classes on the explicit expansion at `3/2` (on the real classes: objective `0` in node mode — `s, a, a, a, t`
+the edge-level classes on the explicit expansion at `floor(3/2) = 1` (on the real classes: objective `0` in node mode — `s, a, a, a, t`
 with weight `1/2` — against `1` / `1/2` on the explicit expansion). -/
 theorem errc_node_mode_cap_from_edge_attribute_differs :
     errcNodeInternal NX.LoopCapErr.inp = .ok (nxcTranslated NX.LoopCapErr.inp NX.LoopCapErr.inp.nf.ng) ∧
     klaecLP (nxcTranslated NX.LoopCapErr.inp NX.LoopCapErr.inp.nf.ng) ≠ klaecLP (expandWalkInput NX.LoopCapErr.inp) ∧
     kmpecLP (nxcTranslated NX.LoopCapErr.inp NX.LoopCapErr.inp.nf.ng) ≠ kmpecLP (expandWalkInput NX.LoopCapErr.inp) ∧
     nxcCapOf (klaecLP (nxcTranslated NX.LoopCapErr.inp NX.LoopCapErr.inp.nf.ng)) ("a.0", "a.1") = some (some 9) ∧
-    nxcCapOf (klaecLP (expandWalkInput NX.LoopCapErr.inp)) ("a.0", "a.1") = some (some (3/2)) :=
+    nxcCapOf (klaecLP (expandWalkInput NX.LoopCapErr.inp)) ("a.0", "a.1") = some (some 1) :=
   ⟨NX.LoopCapErr.node_internal, NX.LoopCapErr.klaec_lp_differs, NX.LoopCapErr.kmpec_lp_differs,
     NX.LoopCapErr.caps.1, NX.LoopCapErr.caps.2.1⟩
 
